@@ -49,12 +49,24 @@ def StaysFailed (script : List Ev) : Prop :=
 structure ExactLen where
   stream : List Ev
   remaining : Nat
+  /-- `finished`: set once the entity's stream has reported its end; it is not polled again
+  (fix F13: a `Stream` may panic when polled after its end, `stream::unfold` does). -/
+  finished : Bool := false
+  /-- Ghost (not in the Rust): the entity's stream has reported its end. -/
+  innerEnded : Bool := false
+  /-- Ghost (not in the Rust): how often the entity's stream has been polled AFTER it had
+  reported its end. `C20_finished_stream_is_never_polled_again` shows it stays 0. -/
+  overpolls : Nat := 0
   deriving Repr, DecidableEq
 
 /-- `ExactLenStream::poll_next` -/
 def ExactLen.poll (s : ExactLen) : ExactLen × PollOut :=
+  if s.finished then (s, .end_) else
   match s.stream with
   | [] =>
+    -- the entity's stream is polled and reports its end (the script has run out)
+    let s := { s with finished := true, innerEnded := true,
+                      overpolls := if s.innerEnded then s.overpolls + 1 else s.overpolls }
     if s.remaining ≠ 0 then ({ s with remaining := 0 }, .errShort s.remaining)
     else (s, .end_)
   | .pending :: rest => ({ s with stream := rest }, .pending)
@@ -63,9 +75,9 @@ def ExactLen.poll (s : ExactLen) : ExactLen × PollOut :=
   | .err :: rest => ({ s with stream := rest }, .errEntity)
   | .chunk bs :: rest =>
     if bs.length ≤ s.remaining then
-      ({ stream := rest, remaining := s.remaining - bs.length }, .data bs)
+      ({ s with stream := rest, remaining := s.remaining - bs.length }, .data bs)
     else
-      ({ stream := rest, remaining := 0 }, .errLong (bs.length - s.remaining))
+      ({ s with stream := rest, remaining := 0 }, .errLong (bs.length - s.remaining))
 
 structure Multipart where
   cur : Option ExactLen
@@ -152,6 +164,12 @@ def BodyS.sizeHint : BodyS → Nat
   | .once none => 0
   | .exact e => e.remaining
   | .multi m => m.remaining
+
+/-- Ghost: polls of an entity stream after its end, by the stream this body currently holds. -/
+def BodyS.overpolls : BodyS → Nat
+  | .once _ => 0
+  | .exact e => e.overpolls
+  | .multi m => (m.cur.map (·.overpolls)).getD 0
 
 /-- `Body::is_end_stream` -/
 def BodyS.isEndStream : BodyS → Bool
